@@ -25,10 +25,10 @@ type Dict = CodecRegion<DictionaryCodec>;
 fn jobs(plan: &Plan) -> Vec<Job> {
     let t = plan.tier;
     let mut v = Vec::new();
-    for h in 0..t.pick(400, 2500, 2) {
+    for h in 0..t.pick(400, 40000, 2) {
         v.push(standalone("codec-dict", "generations", h, generations));
     }
-    for h in 0..t.pick(3, 12, 0) {
+    for h in 0..t.pick(3, 40, 0) {
         v.push(standalone("codec-dict", "compaction", h, compaction));
     }
     v
